@@ -93,6 +93,25 @@ def run(lines, out, args):
                 log.append("c")
                 return val(99)
             Ob = type("Ob", (), {"__conform__": conform})
+        elif cf[0] in "ksm":
+            # the object being adapted is a CLASS whose __conform__ can be called on the class itself: a classmethod (k), a
+            # staticmethod (s), a method of its metaclass (m)
+            def conformc(iface, cf=cf[1:]):
+                log.append("c")
+                if iface is not I:
+                    log.append("WRONG-ARG")
+                if cf == "n":
+                    return None
+                if cf.startswith("v"):
+                    return val(int(cf[1:]))
+                raise boom(int(cf[1:]), "T" if cf[0] == "T" else cf[0] == "Q")
+            if cf[0] == "k":
+                Ob = type("Ob", (), {"__conform__": classmethod(lambda cls, iface: conformc(iface))})
+            elif cf[0] == "s":
+                Ob = type("Ob", (), {"__conform__": staticmethod(conformc)})
+            else:
+                MetaC = type("MetaC", (type,), {"__conform__": lambda cls, iface: conformc(iface)})
+                Ob = MetaC("Ob", (), {})
         elif cf.startswith("i"):
             # __conform__ is a plain function stored on the instance (no __self__)
             def conformi(iface, cf=cf[1:]):
@@ -116,7 +135,7 @@ def run(lines, out, args):
                     return val(int(cf[1:]))
                 raise boom(int(cf[1:]), "T" if cf[0] == "T" else cf[0] == "Q")
             Ob = type("Ob", (), {"__conform__": conform})
-        ob = Ob if cf == "U" else Meta("Cold", (), {}) if cf == "K" else Ob()
+        ob = Ob if cf == "U" or cf[0] in "ksm" else Meta("Cold", (), {}) if cf == "K" else Ob()
         if cf.startswith("i"):
             ob.__conform__ = conformi
         # the interface (custom __adapt__ through interfacemethod, or the plain one)
